@@ -217,6 +217,15 @@ CLAIMS = {
              'delete) on real SQLite with immediate foreign keys: orderable scripts commit and the database equals a reference model, cyclic ones raise and leave the database unchanged.',
         note='Acceptance by the database is checked on SQLite only and only for the enumerated scripts (bounded). One known finding (unique key reused by a re-created object that is saved '
              'principal-first before the pending DELETE).'),
+    'C26': dict(
+        text='PARTIAL proof: normalize_name of every provider returns a string of length min(len(name), max_name_len) and every get_default_*_name function (table, m2m table, column, m2m '
+             'column, index, foreign key names; every branch) returns a string within max_name_len, for ARBITRARY names (symbolic strings, lengths in z3); the real Table / DBIndex / ForeignKey / '
+             'Constraint constructors refuse a used name and leave the registry unchanged (finite). BOUNDED: 6 model families mapped on real SQLite: create_tables succeeds, PRAGMA table_info / '
+             'index_list / foreign_key_list match hand-written expectations (columns, NOT NULL, primary keys, unique and plain indexes, composite and self-referencing foreign keys, '
+             'single-table inheritance, custom names), names distinct, check_tables passes on the created schema; 9 model families x PostgreSQL / MySQL / Oracle: DDL objects generated '
+             'from the real schema: every name within max_name_len, names pairwise distinct, or the mapping is refused with DBSchemaError.',
+        note='Catalog introspection on SQLite only; for server dialects the DDL text only (providers built without a connection). lower() / upper() assumed length-preserving. '
+             'Two Oracle known findings (sequence name of schema-qualified tables; sequence / trigger name longer than 30).'),
 }
 
 _NOT_BUILT = 'within reach of the technique per DESIGN.md, check not built yet'
